@@ -40,6 +40,10 @@ Weakest readings (also reported as assumptions)
           * (v) is only generated for conditions whose balance term is evaluated for every scanned row
             (first operand of AND/OR, no FROM expression): with short-circuited terms "scanned so far"
             and "consulted so far" differ and the property text does not choose;
+          * balance referenced only as a later argument of a call whose leading argument is NULL on some
+            rows (only(cost_currency, balance), only(currency(price), balance)): the call's value is
+            compared where the leading argument is non-NULL; the rows where it is NULL still count in
+            the prefix sum of every later row;
           * the value of the intervening IN target is compared only when the subquery returns rows
             (IN over an empty subquery is C08's business);
           * Inventories are compared with beancount's Inventory equality (lots keyed by currency+cost,
@@ -227,7 +231,9 @@ WHERE_TEXT = {'none': None, 'date>=D1': f'date >= {L.DATES[1]}', 'number>0': 'nu
 FROM_TEXT = {'none': None, "has_account('Inv')": "has_account('Inv')", 'date<D2': f'date < {L.DATES[2]}'}
 TOK_TEXT = {'P': 'position', 'A': 'account', 'B': 'balance', 'UB': 'units(balance)', 'CB': 'cost(balance)',
             'INB': 'account IN (SELECT account FROM postings WHERE empty(balance))',
-            'INP': 'account IN (SELECT account FROM postings WHERE number > 0)'}
+            'INP': 'account IN (SELECT account FROM postings WHERE number > 0)',
+            'OCB': 'only(cost_currency, balance)', 'OPB': 'only(currency(price), balance)',
+            'NOCB': 'number(only(cost_currency, units(balance)))'}
 GROUP_TEXT = {'none': None, 'account': 'account', 'currency': 'currency', 'month': 'year, month', 'root': 'root(account, 1)'}
 
 
@@ -555,7 +561,16 @@ TOK = {
     'CB': lambda: F('cost', col('balance')),
     'INB': _sub_consulting,
     'INP': _sub_plain,
+    # balance ONLY as a later argument of a call whose earlier argument is NULL on some rows
+    'OCB': lambda: F('only', col('cost_currency'), col('balance')),
+    'OPB': lambda: F('only', F('currency', col('price')), col('balance')),
+    'NOCB': lambda: F('number', F('only', col('cost_currency'), F('units', col('balance')))),
 }
+
+# reference of the nullable leading argument of the tokens above: posting -> currency or None
+NULLARG = {'OCB': lambda p: p.cost.currency if p.cost is not None else None,
+           'OPB': lambda p: p.price.currency if p.price is not None else None,
+           'NOCB': lambda p: p.cost.currency if p.cost is not None else None}
 
 # pattern name -> tokens; number of balance references 0..3 in varying positions
 PATTERNS = {
@@ -568,6 +583,11 @@ PATTERNS = {
     'refs3-spread': ['B', 'P', 'B', 'A', 'B'],
     'refs3-adjacent': ['B', 'B', 'B'],
     'refs3-functions': ['UB', 'P', 'CB', 'B'],
+    'nullarg-cost': ['OCB'],
+    'nullarg-cost-after-position': ['P', 'OCB'],
+    'nullarg-price': ['A', 'OPB'],
+    'nullarg-cost-and-price': ['OCB', 'OPB'],
+    'nullarg-nested': ['NOCB', 'P'],
     'nested-plain-between': ['B', 'INP', 'B'],
     'nested-consulting-after': ['B', 'B', 'INB', 'P'],
     'nested-consulting-before': ['P', 'INB', 'B', 'B'],
@@ -580,6 +600,8 @@ def pattern_fp(pname):
         return 'balance:nested-scan-consulting-balance-between-references'
     if pname.startswith('nested'):
         return 'balance:nested-scan'
+    if pname.startswith('nullarg'):
+        return 'balance:reference-behind-null-argument'
     return 'balance:target-references'
 
 
@@ -639,6 +661,20 @@ def check_bal(led, wname, fname, pname, stats, total=None):
                     out.append((fp, f'{desc}: row {n} ({p.account} {p.units}) target {j} ({tok}) = {show(r[j])}, '
                                 f'prefix sum of position over the selected rows = {show(exp)}'))
                 stats['outcomes'].add(inv_key(r[j]))
+            elif tok in NULLARG:
+                cur = NULLARG[tok](p)
+                stats['balance_refs'] += 1
+                if cur is None:
+                    # the call is NULL-strict (C01's business): its value on this row is not compared, but the
+                    # posting still belongs to the prefix sum seen by every later row
+                    stats['balance_refs_behind_null_argument'] += 1
+                else:
+                    exp = pre.get_currency_units(cur)
+                    if tok == 'NOCB':
+                        exp = exp.number
+                    if r[j] != exp:
+                        out.append((fp, f'{desc}: row {n} ({p.account} {p.units}) target {j} = {r[j]}, expected {exp}: the {cur} units of the '
+                                    f'prefix sum of position over the selected rows {show(pre)} (rows where the leading argument is NULL included)'))
             else:
                 lst = in_lists[tok]
                 if lst and r[j] is not (p.account in lst):
@@ -889,6 +925,7 @@ def run(ctx):
         'groups_compared': c['groups'],
         'rows_folded_by_reference': c['rows_folded'],
         'balance_references_compared': c['balance_refs'],
+        'balance_references_behind_a_NULL_argument': c['balance_refs_behind_null_argument'],
         'rows_scanned_with_balance_in_where': c['rows_scanned_with_balance'],
         'balance_in_where_cases_that_filter': c['balw_filtering_cases'],
         'empty_selection_statements': c['empty_selections'],
